@@ -207,3 +207,11 @@ func lemmaEthIPv6HRF(e *Ethernet, ip *IPv6, hel uint8, o *Option, r *RoutingHead
 	e.Data = ip
 	return lemmaFrame(e)
 }
+
+// the extension chain in the other order: fragment header first, then routing header
+func lemmaEthIPv6FR(e *Ethernet, ip *IPv6, r *RoutingHeader, f *FragmentHeader, u *UDP) (*Ethernet, error, []byte, []byte) {
+	ip.HbhHeader, ip.RoutingHeader, ip.FragmentHeader = nil, r, f
+	ip.Data = u
+	e.Data = ip
+	return lemmaFrame(e)
+}
